@@ -12,7 +12,7 @@ from vlib import core, gen, corpus, trees, ppcommon
 LEVEL_NOTE = [
     "Lean 4.33 kernel; axioms ⊆ {propext, Classical.choice, Quot.sound} (audited each run)",
     "Model/Transformer.lean hand model of transformer.py (all call-backs, CommentsTransformer, Canonize); tied by the `transform` correspondence on real Lark trees, four flag combinations",
-    "C13_position_transparent covers the single-pass pipeline (include_comments off, any include_position) for every tree satisfying the decidable grammar-shape premise shapeRootB (evaluated on every real tree each run); the two-pass include_comments pipeline is covered by C13_composite_transparent / C13_kv_transparent per call-back plus correspondence and oracle, not by a composed theorem",
+    "C13_position_transparent (single pass) and C13_comments_transparent (two-pass CommentsTransformer pipeline) cover every tree satisfying the decidable grammar-shape premises shapeRootB / shapeCRootB (evaluated on every real tree each run and linked to the inductive premises by shapeItem_of_B / shapeC_of_B); one direction: a successful flagged load implies the plain load succeeds with the stripped result",
     "keys / block types / attribute names starting with `__` are answered UNSUPPORTED by the model (not comparable); Python's str.lower = ASCII lower on the compared trees (checked per case)",
     "that the parser builds the same tree with propagate_positions / lexer call-backs on is Lark's business: exercised by the oracle",
     "printer side: C03_hidden_keys_silent (Props/C03) is the kernel-checked statement that __position__ never prints; comment-text removal is an oracle",
